@@ -313,7 +313,9 @@ def check(rep, ctx):
         done.add(key)
         qv, issues = timeflow.read_side(c2, 64, "timestamp")
         issues = [i for i in issues if i[0] in ("T-gran", "T-trunc", "T-epoch")]
-        site = next((n for n in ()), None)
+        if qv is None:
+            rep.limit(f"{rfn.ref}: record timestamp conversion not understood: {key[:160]}")
+            continue
         rep.check(R_G, qv is not None and not issues, construct=rfn.ref, stmt=key,
                   message="; ".join(f"{r}: {m}" for r, m, _ in issues) or "conversion not understood", file=file, line=rfn.node.lineno)
     # exceptions: a well-formed batch (any record count, incl. zero) must not end in an internal error
